@@ -383,6 +383,102 @@ example :
     (runTargets r ({ keys := ["cpp"] }, [["w", "gen", "cpp", "stale.hpp"], ["w", "gen", "cppx", "keep.txt"]])).2
       = [["w", "gen", "cppx", "keep.txt"], ["w", "gen", "cpp", "a", "x.hpp"]] := by decide +kernel
 
+/-! ### sibling output directories whose names are string prefixes of each other
+
+"Below" is a relation between *component lists*. Two directories next to each other (`gen/cpp`, `gen/cppcli`;
+`gen/include`, `gen/include_jni`; `out/x`, `out/x2`) are unrelated whatever their names look like as strings. -/
+
+theorem isPrefixOf_append_cons (d : List String) (a b : String) (r₁ r₂ : List String) (h : a ≠ b) :
+    (d ++ a :: r₁).isPrefixOf (d ++ b :: r₂) = false := by
+  induction d with
+  | nil => simp [List.isPrefixOf, h]
+  | cons x xs ih => simpa [List.isPrefixOf] using ih
+
+/-- Nothing below `d/b` lies below its sibling `d/a` — for *all* names `a ≠ b`, string prefixes of each other or not. -/
+theorem under_sibling (d : List String) (a b : String) (rest : List String) (h : a ≠ b) :
+    under (d ++ [a]) (d ++ b :: rest) = false := by
+  simp [under, isPrefixOf_append_cons d a b [] rest h]
+
+/-- Purging `d/a` (`clean` of one generator) keeps every file of the sibling directory `d/b`. -/
+theorem rmtree_keeps_sibling (d : List String) (a b : String) (rest : List String) (fs : FSys) (h : a ≠ b)
+    (hf : d ++ b :: rest ∈ fs) : d ++ b :: rest ∈ rmtree (d ++ [a]) fs :=
+  (mem_rmtree _ _ _).mpr ⟨hf, under_sibling d a b rest h⟩
+
+/-- … whereas the spelling of `gen/cppcli/x.hpp` does start with the spelling of `gen/cpp`: a membership test on the
+    text (`str(file).startswith(str(dir))`) takes the files of the sibling for files of the purged directory. -/
+theorem text_prefix_is_not_under :
+    underText ["gen", "cpp"] ["gen", "cppcli", "x.hpp"] = true ∧ under ["gen", "cpp"] ["gen", "cppcli", "x.hpp"] = false ∧
+    underText ["gen", "include"] ["gen", "include_jni", "x.hpp"] = true ∧ under ["gen", "include"] ["gen", "include_jni", "x.hpp"] = false := by
+  decide
+
+/-- **With `clean`, what lies below a generator's directories afterwards is exactly what it wrote** (one generator
+    step; `hU`: its writes land below its own directories — `writes_under_out` + `resolve_under_out`). Together with
+    `report_eq_log` (the report section lists exactly these writes): report = files on disk, per generator. Later
+    steps of generators with unrelated directories keep both sides (`genStep_preserves_outside`, `under_sibling`). -/
+theorem genStep_clean_disk_eq_writes (r : RunCfg) (st : FRW Unit × FSys) (g : G) (c : GCfg) (hg : r.gens g = some c)
+    (hcl : r.clean = true)
+    (hU : ∀ w ∈ genWrites g c c (r.support g) r.defs,
+      under (resolve r.cwd c.out.header) (resolve r.cwd w.2) = true ∨ under (resolve r.cwd c.out.source) (resolve r.cwd w.2) = true)
+    (f : List String) :
+    (f ∈ (genStep r st g).2 ∧ (under (resolve r.cwd c.out.header) f = true ∨ under (resolve r.cwd c.out.source) f = true))
+      ↔ f ∈ (genWrites g c c (r.support g) r.defs).map (fun w => resolve r.cwd w.2) := by
+  unfold genStep
+  simp only [hg, hcl, if_true]
+  rw [mem_addFiles, clean_only_out_dirs]
+  constructor
+  · rintro ⟨h | h, hu⟩
+    · rcases hu with hu | hu
+      · rw [h.2.1] at hu; cases hu
+      · rw [h.2.2] at hu; cases hu
+    · exact h
+  · intro h
+    refine ⟨Or.inr h, ?_⟩
+    obtain ⟨w, hw, rfl⟩ := List.mem_map.mp h
+    exact hU w hw
+
+/-- the example run of above with a sibling `gen/cppcli` generated first: `clean` of `gen/cpp` keeps its files, and the
+    report lists them (cppcli's section is not touched by cpp's `clean`) -/
+example :
+    let r : RunCfg := { cwd := ["w"], gens := fun g => if g = .cpp then some { out := .one (.rel ["gen", "cpp"]) }
+                                                     else if g = .cppcli then some { out := .one (.rel ["gen", "cppcli"]) } else none,
+                        targets := [.cppcli, .cpp], clean := true,
+                        support := fun _ => [], defs := [{ name := "x", ns := [], kind := .enum }] }
+    let res := runTargets r ({ keys := ["cpp", "cppcli"] }, [["w", "gen", "cpp", "stale.hpp"]])
+    (res.2.filter (under ["w", "gen", "cppcli"])).length = ((res.1.gens "cppcli").header ++ (res.1.gens "cppcli").source).length
+      ∧ (res.1.gens "cppcli").header ≠ [] := by decide +kernel
+
+/-! ### input files behind symbolic links
+
+The report names the input files by the path they were *read through*. That path denotes the file read (trivially);
+its lexical normalisation (`os.path.normpath`) does so only when no component in front of a `..` is a symbolic link. -/
+
+theorem foldl_physStep_nil (acc p : List String) : p.foldl (physStep []) acc = p.foldl normStep acc := by
+  induction p generalizing acc with
+  | nil => rfl
+  | cons c cs ih => simp [List.foldl_cons, physStep, normStep, followLink, ih]
+
+/-- without links the physical walk is the lexical normalisation (the model used for everything the tool writes) -/
+theorem phys_nil (p : List String) : phys [] p = norm p := foldl_physStep_nil [] p
+
+theorem physResolve_nil (cwd : List String) (p : Path) : physResolve [] cwd p = resolve cwd p := by
+  simp [physResolve, resolve, phys_nil]
+
+/-- **The inputs listed denote the files read**, whatever links there are: entry by entry, in order. -/
+theorem report_inputs_denote_reads (links : Links) (cwd : List String) (keys : List String) (ops : List (FOp κ)) :
+    (((FRW.fresh keys : FRW κ).run ops).report.idl.map (physResolve links cwd) = (idlReads ops).map (physResolve links cwd)) ∧
+    (((FRW.fresh keys : FRW κ).run ops).report.ext.map (physResolve links cwd) = (extReads ops).map (physResolve links cwd)) := by
+  rw [(report_inputs_exact keys ops).1, (report_inputs_exact keys ops).2]
+  exact ⟨rfl, rfl⟩
+
+/-- Recording the *normalised* path instead changes the file denoted: `work/idl` is a link to `checkout/idl`, the file
+    read through `work/idl/../shared/c` is `checkout/shared/c`, the normalised entry names `work/shared/c`. -/
+theorem normpath_changes_denotation :
+    ∃ (links : Links) (p : List String), phys links (norm p) ≠ phys links p :=
+  ⟨[(["work", "idl"], ["checkout", "idl"])], ["work", "idl", "..", "shared", "c"], by decide⟩
+
+example : phys [(["work", "idl"], ["checkout", "idl"])] ["work", "idl", "..", "shared", "c"] = ["checkout", "shared", "c"] := by decide
+example : phys [(["work", "idl"], ["checkout", "idl"])] ["work", "idl", "main"] = ["checkout", "idl", "main"] := by decide
+
 /-! ### several configured contexts of one API object
 
 The generator instances (and with them `header_path` / `source_path`) belong to the API object and are shared by every
